@@ -942,3 +942,15 @@ V("R5-kind-helper-equiv", "C08", [], [(BASE, """            if value.__formulaic
 V("R5-spans-demorgan-equiv", "C03", [], [(CONTRASTS, "        return len(levels) > 0 and not reduced_rank", "        return not (len(levels) == 0 or reduced_rank)")], "refactor C03-r26")
 V("R5-spans-or", "C03", ["C03.R5"], [(CONTRASTS, "        return len(levels) > 0 and not reduced_rank", "        return len(levels) > 0 or not reduced_rank")], "spans-intercept predicate weakened")
 V("R5-copy-drops-reduced", "C04", ["C04.R3"], [(("formulaic/materializers/types/scoped_term.py"), "                    reduced=factor.reduced,\n                )\n                for factor in factors", "                    reduced=False,\n                )\n                for factor in factors")], "recorded copy loses the reduced flags")
+
+# ----------------------------------------------------------------------------------------- seeding wave 6 (distilled)
+V("W6-isnan-of-sum", "C06", ["C06.R7"], [(NULLS, "        return set(numpy.flatnonzero(numpy.any(numpy.isnan(values), axis=1)))", "        return set(numpy.flatnonzero(numpy.isnan(numpy.sum(values, axis=1))))")], "wave 6: C06-w2")
+V("W6-stateful-by-bare-name", "C04", ["C04.R4"], [("formulaic/utils/stateful_transforms.py", """        func = eval(compile(format_expr(node.func), "", "eval"), {}, env)  # nosec; Get function handle (assuming it exists in env)
+        return getattr(func, "__is_stateful_transform__", False)""", """        func = env.get(node.func.id) if isinstance(node.func, ast.Name) else None
+        return getattr(func, "__is_stateful_transform__", False)""")], "wave 6: C13-w2")
+V("W6-next-filtered", "C14", ["C14.R3"], [(PARSER, "                        term.factors[0].token or Token(),", "                        next(f for f in term.factors if f.eval_method != Factor.EvalMethod.LITERAL).token or Token(),")], "wave 6: C14-w1")
+V("W6-from-spec-rewrap", "C20", ["C20.R1"], [(FORMULA, "        if isinstance(spec, Formula):\n            return cast(Union[SimpleFormula, StructuredFormula], spec)", "        if isinstance(spec, SimpleFormula):\n            return SimpleFormula(spec, _ordering=ordering)\n        if isinstance(spec, Formula):\n            return cast(Union[SimpleFormula, StructuredFormula], spec)")], "wave 6: C20-w2")
+V("W6-cache-key-kind", "C03", ["C03.R6"], [(BASE, "                    if isinstance(encoded, dict) and factor.metadata.drop_field\n", "                    if isinstance(encoded, dict) and (factor.metadata.drop_field or factor.metadata.kind is Factor.Kind.CATEGORICAL)\n")], "wave 6: C03-w1")
+V("W6-helmert-int", "C05", ["C05.W5"], [(CONTRASTS, "        contr = spsparse.lil_matrix((n, n - 1)) if sparse else numpy.zeros((n, n - 1))\n        for i in range(len(levels) - 1):", "        contr = spsparse.lil_matrix((n, n - 1), dtype=int) if sparse else numpy.zeros((n, n - 1))\n        for i in range(len(levels) - 1):")], "wave 6: C05-w1")
+V("W6-flags-bypass-setter", "C18", ["C18.W3"], [(PARSER, "        self.feature_flags = DefaultFormulaParser.FeatureFlags.from_spec(flags)\n        self.__post_init__()\n        return self", "        self.feature_flags = DefaultFormulaParser.FeatureFlags.from_spec(flags)\n        if isinstance(self.operator_resolver, DefaultOperatorResolver):\n            self.operator_resolver.feature_flags = self.feature_flags\n        return self")], "wave 6: C18-w2")
+V("W6-kind-in-place", "C18", ["C18.X3"], [(BASE, "                value = FactorValues(value, kind=kind, spans_intercept=spans_intercept)\n", "                value.__formulaic_metadata__.kind = kind\n                value.__formulaic_metadata__.spans_intercept = spans_intercept\n")], "wave 6: C18-w1")
